@@ -176,7 +176,7 @@ where
 }
 
 pub fn write_replay_generic<V: Serialize>(id: &str, kind: &str, case: &V, f: &Failure, extra: serde_json::Value) -> PathBuf {
-    let dir = PathBuf::from("/verif/replays");
+    let dir = crate::util::verif_root().join("replays");
     let _ = std::fs::create_dir_all(&dir);
     let txt = serde_json::to_string(case).unwrap_or_default();
     let h = crate::util::fnv(txt.as_bytes());
